@@ -83,6 +83,12 @@ def _(c):
     c.ensures("returned-only-through-the-gate", "implies(result is not None, old(" + GATE + "))")
     c.ensures("record-at-or-after-the-position", "implies(result is not None, result.g_offset >= old(%s._position))" % STATE)
     c.ensures("position-one-past-the-returned-record", "implies(result is not None, %s._position == result.g_offset + 1)" % STATE)
+    # C03 "once faults cease delivery continues to the end of the log" / C08 "the consumer's position still advances past
+    # everything it filtered so that it never stalls or re-fetches the same batch forever": whatever the iterator skipped
+    # (control batches, aborted batches, a compacted tail) is behind the position afterwards - also when the buffer turns
+    # out to be exhausted and nothing is returned
+    c.ensures("position-follows-the-buffers-cursor-past-everything-it-skipped",
+              "implies(old(" + GATE + "), %s._position == old(self._partition_records).next_fetch_offset)" % STATE)
     c.ensures("position-never-moves-back", "implies(old(%s._position) is not None and %s._position is not None,"
               " %s._position >= old(%s._position))" % (STATE, STATE, STATE, STATE))
     c.ensures("gate-closed-nothing-happens", "implies(not old(" + GATE + "), result is None and same_heap('TPState'))")
@@ -120,6 +126,8 @@ def _(c):
         ("below-max-records", "max_records is None or len(ret_list) < max_records"),
     ])
     c.ensures("at-most-max-records", "max_records is None or len(result) <= max_records")
+    c.ensures("position-follows-the-buffers-cursor-past-everything-it-skipped",
+              "implies(old(" + GATE + "), %s._position == old(self._partition_records).next_fetch_offset)" % STATE)
     c.ensures("returned-only-through-the-gate", "implies(len(result) > 0, old(" + GATE + "))")
     c.ensures("gate-closed-nothing-happens", "implies(not old(" + GATE + "), len(result) == 0 and same_heap('TPState'))")
     c.ensures("records-in-offset-order-from-the-position",
